@@ -33,7 +33,7 @@ def check(ctx, tier):
     W.report(ctx, tk, "C16.f", fs)
     registry(ctx, tk)
     from .. import hazards as _hz, scopes as _sc
-    _hz.generic(ctx, tk, "C16.z", _sc.scope(tk, "C16"))
+    _hz.generic(ctx, tk, "C16.z", _sc.scope(tk, "C16", depth=2))
     return {}
 
 
@@ -179,6 +179,18 @@ def reductions(ctx, tk):
         if tm.k == "bin" and tm.a[0] == "/":
             ok = tm.a[1].k == "call" and tm.a[1].a[0].k == "attr" and tm.a[1].a[0].a[1] == "sum" and (attr_chain(tm.a[2]) or ("",))[-1] == "size"
             ctx.decide("C16.d", mn, "mean is the weighted sum divided by the number of elements", True if ok else None, node=r.ast, engine="E5")
+            # numpy's mean of integers accumulates in float64; the run-length sum multiplies and adds in the value dtype
+            from ..guards import reachable_under
+            subj = lambda t: t.k == "attr" and t.a[1] == "dtype"
+            conv = any(x.k == "call" and x.a[0].k == "attr" and x.a[0].a[1] == "astype" for x in walk(tm))
+            for kind in ("signed", "unsigned"):
+                reach = reachable_under(ma, kind, subj)
+                direct = r.id in reach and not conv
+                from ..guards import facts_at as _facts, dtype_truth
+                opaque = any(dtype_truth(t, subj) is None and any(x.k == "attr" and x.a[1] in ("dtype", "kind", "itemsize") for x in walk(t)) for t, _tr, _ in _facts(ma, r))
+                ctx.decide("C16.d", mn, "the mean of %s integer values is accumulated in floating point, as numpy does" % kind, (None if opaque else False) if direct else True,
+                           "`%s` is reached for %s integer values: the length-weighted sum is accumulated in the integer dtype and wraps where np.mean accumulates in float64" % (
+                               ast.unparse(r.ast), kind), node=r.ast, key="float-accumulator:" + kind, engine="E1")
 
 
 def concatenate(ctx, tk):
